@@ -387,9 +387,11 @@ class Obj(Engine):
                 # the library itself builds the default witness of a mutable transaction around a plain
                 # list; editing that list in place is how a caller fills in one input's witness
                 lst = h.obj.wit.vtxinwit
-                if not isinstance(lst, list) or len(lst) != nin or nin == 0:
+                if not isinstance(lst, list) or len(lst) > nin or nin == 0:
                     log('skip-not-list')
                     return None
+                grow = nin - len(lst)    # a list-backed vector shorter than vin (inputs were added since): the
+                                         # caller appends the missing entries in place, then fills one in
                 k = a['i'] % nin
                 st = [] if how == 'inplace-empty' else (list(a['stacks'][0]) or ['cd'])
                 witobj = h.obj.wit
@@ -408,6 +410,10 @@ class Obj(Engine):
                 if shared:
                     log('skip-shared-witness')
                     return None
+                for _ in range(grow):
+                    lst.append(C.CTxInWitness())
+                if grow:
+                    ctx.probe('witness-vector-grown-in-place')
                 lst[k] = C.CTxInWitness(S.CScriptWitness(tuple(bytes.fromhex(x) for x in st)))
                 cur = h.model.get('wit')
                 stacks = [list(x) for x in cur] if cur else [[] for _ in range(nin)]
